@@ -17,7 +17,6 @@ package main
 // workbook observation before == after.
 
 import (
-	"bytes"
 	"encoding/json"
 	"fmt"
 	"math"
@@ -267,6 +266,18 @@ func c09NestedA(toks []efp.Token) bool {
 		}
 		return s[len(s)-1]
 	}
+	// scanA: the innermost array frame not separated from the top by a function frame
+	scanIdx := func(s []byte) int {
+		for i := len(s) - 1; i >= 0; i-- {
+			switch s[i] {
+			case 'F':
+				return -1
+			case 'a', 'r':
+				return i
+			}
+		}
+		return -1
+	}
 	for _, t := range toks {
 		fn, sub := t.TType == efp.TokenTypeFunction, t.TType == efp.TokenTypeSubexpression
 		cur := &outer
@@ -277,39 +288,27 @@ func c09NestedA(toks []efp.Token) bool {
 		case fn && t.TSubType == efp.TokenSubTypeStart && t.TValue == "ARRAY":
 			*cur = append(*cur, 'a')
 		case fn && t.TSubType == efp.TokenSubTypeStart && t.TValue == "ARRAYROW":
-			// scanA: the innermost array frame not separated from the top by a function frame
-			scan := byte(0)
-			all := append(append([]byte{}, outer...), inner...)
-			for i := len(all) - 1; i >= 0 && scan == 0; i-- {
-				switch all[i] {
-				case 'F':
-					scan = 'F'
-				case 'a', 'r':
-					scan = all[i]
-				}
-			}
-			if scan == 'a' { // an array constant without an open row
-				if top(*cur) != 'a' {
-					return false // the row would open underneath a parenthesis: not representable
-				}
-				(*cur)[len(*cur)-1] = 'r'
+			// a row of the array constant the token belongs to (found through parentheses), if it has
+			// no open row; anywhere else an ordinary function start
+			if i := scanIdx(*cur); i >= 0 && (*cur)[i] == 'a' {
+				(*cur)[i] = 'r'
 			} else {
-				inner = append(inner, 'F') // anywhere else: an ordinary function start
+				inner = append(inner, 'F')
 			}
 		case fn && t.TSubType == efp.TokenSubTypeStart:
 			inner = append(inner, 'F')
 		case fn && t.TSubType == efp.TokenSubTypeStop:
-			switch top(*cur) {
-			case 0: // nothing open (only possible out of the function stack)
-			case 'F', 'a':
+			if top(*cur) == 'F' {
 				*cur = (*cur)[:len(*cur)-1]
-			case 'r':
-				(*cur)[len(*cur)-1] = 'a'
-			case 'P':
-				if len(inner) > 0 || bytes.ContainsAny(outer, "ar") {
-					return false
+			} else if i := scanIdx(*cur); i >= 0 { // the open row / the array constant, through parentheses
+				if (*cur)[i] == 'r' {
+					(*cur)[i] = 'a'
+				} else {
+					*cur = append((*cur)[:i], (*cur)[i+1:]...)
 				}
-			}
+			} else if len(inner) > 0 {
+				return false // a parenthesis is open inside the innermost function call
+			} // else: nothing in reach out of the function stack, tolerated
 		case t.TType == efp.TokenTypeArgument: // anywhere
 		case sub && t.TSubType == efp.TokenSubTypeStart:
 			*cur = append(*cur, 'P')
@@ -459,7 +458,7 @@ func c09Mutate(rng *Rng, ts []efp.Token) []efp.Token {
 // kept so that a regression is reproduced deterministically)
 var c09EvWitnesses = []string{"({1}+SUM(2))", "'*'(1 2+3)", "SUM(1 '*'(2+3))", "'-'(1 2-3)", "'='(1 2=3)", "({1;2}+SUM(2)+(3))",
 	"1)", "SUM(1))", ")", "{1}+SUM(2)", "SUM((1,2))", "SUM(,)", "{SUM(1)}", "SUM({1}{2})", "1%%", "--1", "SUM(A1:A2,A1)", "SUM(A1:A2 A1)",
-	"SUM(({1,2}))", "SUM((1+{1,2}))", "LOOKUP((2,/{1,2,3},{\"a\",\"b\",\"c\"})", "SUM(0:0)", "1:0", "SUM(1:1048577)", "{(SUM(1))}", "SUM({(SUM(1))})", "{1,(SUM(1))}", "{(1)}", "SUM((ARRAYROW(1)))", "SUM((SUM(;1)))", "SUM((1;2))", "ARRAYROW(1)", "SUM((ARRAY(1)))", "O;FFSET(A1,1,1)", "SUM(({{1}}))", "SUM((SUM({SUM({1})})))", "SUM({{1,2};{3}})", "{{1}}+SUM((({{2}})))", "({{1}})", "SUM({{1}})", "{SUM(1,2)}", "SUM({SUM(1,2)},{3})", "1+", "SUM(1+)", "1*", "-", "(1+)", "1&", "SUM(1,)", "SUM(+)", "1<", "(({1}))", "SUM(({1}))", "({1})+SUM(1,(2))", "'*'((1 2)+3)", "SUM('*'(1,2) 3+4)"}
+	"SUM(({1,2}))", "SUM((1+{1,2}))", "LOOKUP((2,/{1,2,3},{\"a\",\"b\",\"c\"})", "SUM(0:0)", "1:0", "SUM(1:1048577)", "{(SUM(1))}", "SUM({(SUM(1))})", "{1,(SUM(1))}", "{(1)}", "SUM((ARRAYROW(1)))", "{1)(ARRAYROW(2))}", "SUM({1)(ARRAYROW(2))})", "SUM((SUM(;1)))", "SUM((1;2))", "ARRAYROW(1)", "SUM((ARRAY(1)))", "O;FFSET(A1,1,1)", "SUM(({{1}}))", "SUM((SUM({SUM({1})})))", "SUM({{1,2};{3}})", "{{1}}+SUM((({{2}})))", "({{1}})", "SUM({{1}})", "{SUM(1,2)}", "SUM({SUM(1,2)},{3})", "1+", "SUM(1+)", "1*", "-", "(1+)", "1&", "SUM(1,)", "SUM(+)", "1<", "(({1}))", "SUM(({1}))", "({1})+SUM(1,(2))", "'*'((1 2)+3)", "SUM('*'(1,2) 3+4)"}
 
 func c09EvStream(r *Run, rng *Rng) {
 	f := c09EvFile()
